@@ -31,6 +31,18 @@ check("C09", "exploration",
       "runtime monitoring: differential oracle (libm/IEEE reference) over exhaustive boundary pairs",
       "DESIGN.md §3 C09")
 
+check("C08", "exploration",
+      "Composes view-producing array operations (slices with every start/end/step shape, reverse, "
+      "repeat, concat, map, filter, ...) over small bases and across the 1000-element threshold, "
+      "and compares length, every in-range element, every out-of-range index from -2 to len+2, "
+      "equality/ordering/iteration/std functions and manifestation observed on the real evaluator "
+      "(rel and chk builds) with a Python list built alongside; records which internal "
+      "representations were actually exercised.",
+      "Python list semantics as the model of a plainly constructed array; representation names are "
+      "read from the Debug output of the array value (no hook).",
+      "runtime monitoring: model-based differential oracle (Python list) over generated view compositions, rel + overflow-checked builds",
+      "DESIGN.md §3 C08")
+
 NOT_APPLICABLE = []
 
 
